@@ -6,6 +6,10 @@
 //! differential) and C16 (JSON). A violation writes a replay file, prints the VIOLATION
 //! line and aborts.
 use libfuzzer_sys::fuzz_target;
+
+// counting allocator: needed by the C15 oracle, harmless for the others
+#[global_allocator]
+static A: nfv::alloc::Counting = nfv::alloc::Counting;
 use nfv::fuzzglue;
 
 fuzz_target!(|data: &[u8]| {
